@@ -10,15 +10,22 @@
 From Coq Require Import String.
 From PGV Require Import Base.Bytes Base.GoStr Base.Utf8 Base.MiniGo.
 From PGV Require Import Extracted.SourceConst Model.RuleText.
-(* also IsExported (valid/common.go): string comparison, s[i] (a byte, with its run-time bound), <= >=, return e *)
+(* also IsExported (valid/common.go): string comparison, s[i] (a byte, with its run-time bound), <= >=, return e;
+   and GenValidKV (valid/rule.go): the variadic values, a pooled strings.Builder (newStrBuf / WriteString / WriteByte /
+   Grow / String / deferred putStrBuf), switch on a string with value lists and a default;
+   and GetJoinValidErrStr (valid/common.go): strings.Contains, !, integer -, for i, v := range over the variadic
+   values with continue;
+   and RM.Set / RM.Get (valid/rule.go): a map of strings as the model's association list (v, ok := m[k], m[k] = x,
+   m[k] += x, len(m)), strings.Split and strings.Join on a one-byte separator *)
 Open Scope Z_scope.
 
-Inductive pv := PS (s : str) | PZ (z : Z) | PB (b : bool) | PBad.
+Inductive pv := PS (s : str) | PZ (z : Z) | PB (b : bool) | PL (l : list str) | PM (m : rm) | PBad.
 Definition penv := string -> pv.
 Definition pset (x : string) (v : pv) (e : penv) : penv := fun y => if String.eqb y x then v else e y.
 Definition pempty : penv :=
   fun y => if String.eqb y "ExplainZh" then PS ExplainZh else if String.eqb y "ExplainEn" then PS ExplainEn
-           else PBad.
+           else if String.eqb y "VIn" then PS VIn else if String.eqb y "VInclude" then PS VInclude
+           else if String.eqb y "VRe" then PS VRe else if String.eqb y "ErrEndFlag" then PS ErrEndFlag else PBad.
 
 Definition index1 (s sub : str) : pv :=
   match sub with
@@ -40,10 +47,17 @@ Fixpoint peval (e : penv) (x : expr) {struct x} : pv :=
   | EId n => if String.eqb n "true" then PB true else if String.eqb n "false" then PB false else e n
   | ELit z => PZ z
   | EStr s => PS s
-  | EUn op a => if String.eqb op "-" then match peval e a with PZ z => PZ (- z) | _ => PBad end else PBad
+  | EUn op a => if String.eqb op "-" then match peval e a with PZ z => PZ (- z) | _ => PBad end
+                else if String.eqb op "!" then match peval e a with PB b => PB (negb b) | _ => PBad end else PBad
   | ECall (ESel (EId pkg) f) [a; b] =>
     if String.eqb pkg "strings" && String.eqb f "Index" then
       match peval e a, peval e b with PS s, PS sub => index1 s sub | _, _ => PBad end
+    else if String.eqb pkg "strings" && String.eqb f "Contains" then
+      match peval e a, peval e b with PS s, PS sub => PB (contains s sub) | _, _ => PBad end
+    else if String.eqb pkg "strings" && String.eqb f "Split" then       (* one-byte separators only *)
+      match peval e a, peval e b with PS s, PS [c] => PL (split1 c [] s) | _, _ => PBad end
+    else if String.eqb pkg "strings" && String.eqb f "Join" then
+      match peval e a, peval e b with PL l, PS [c] => PS (join1 c l) | _, _ => PBad end
     else PBad
   | ECall (ESel (EId r) f) [a] =>
     if String.eqb r "IncludeZhRe" && String.eqb f "MatchString" then
@@ -51,11 +65,18 @@ Fixpoint peval (e : penv) (x : expr) {struct x} : pv :=
     else PBad
   | ECall (EId f) [a] =>
     if String.eqb f "len" then
-      match peval e a with PS s => PZ (Z.of_nat (List.length s)) | _ => PBad end
+      match peval e a with
+      | PS s => PZ (Z.of_nat (List.length s)) | PL l => PZ (Z.of_nat (List.length l)) | PM m => PZ (Z.of_nat (List.length m))
+      | _ => PBad
+      end
     else PBad
+  | ECall (ESel (EId b) f) [] =>     (* a strings.Builder: its text *)
+    if String.eqb f "String" then match e b with PS s => PS s | _ => PBad end else PBad
   | EIndex a i =>
     match peval e a, peval e i with
     | PS s, PZ z => if 0 <=? z then match nth_error s (Z.to_nat z) with Some c => PZ (Z.of_N c) | None => PBad end else PBad
+    | PL l, PZ z => if 0 <=? z then match nth_error l (Z.to_nat z) with Some x => PS x | None => PBad end else PBad
+    | PM m, PS k => PS (match rm_get_raw m k with Some v => v | None => [] end)      (* a missing key reads as "" *)
     | _, _ => PBad
     end
   | ESlice a lo hi =>
@@ -77,7 +98,7 @@ Fixpoint peval (e : penv) (x : expr) {struct x} : pv :=
       if String.eqb op "==" then PB (x =? y) else if String.eqb op "!=" then PB (negb (x =? y))
       else if String.eqb op "<" then PB (x <? y) else if String.eqb op ">" then PB (y <? x)
       else if String.eqb op "<=" then PB (x <=? y) else if String.eqb op ">=" then PB (y <=? x)
-      else if String.eqb op "+" then PZ (x + y) else PBad
+      else if String.eqb op "+" then PZ (x + y) else if String.eqb op "-" then PZ (x - y) else PBad
     | PS x, PS y => if String.eqb op "+" then PS (x ++ y)
                     else if String.eqb op "==" then PB (str_eqb x y) else if String.eqb op "!=" then PB (negb (str_eqb x y))
                     else PBad
@@ -91,7 +112,17 @@ Fixpoint peval (e : penv) (x : expr) {struct x} : pv :=
   | _ => PBad
   end.
 
-Inductive pflow := PNext (e : penv) | PRet (e : penv) (v : option pv) | PStuck.
+Inductive pflow := PNext (e : penv) | PCont (e : penv) | PRet (e : penv) (v : option pv) | PStuck.
+
+(* for i, v := range l { body }: the loop itself, on a body already given a meaning; continue ends one iteration *)
+Fixpoint range_loop (l : list str) (idx : Z) (body : Z -> str -> penv -> pflow) (e : penv) : pflow :=
+  match l with
+  | [] => PNext e
+  | c :: r => match body idx c e with
+              | PNext e1 | PCont e1 => range_loop r (idx + 1) body e1
+              | other => other
+              end
+  end.
 
 Fixpoint pexec (s : stmt) (e : penv) {struct s} : pflow :=
   let run := fix run (l : list stmt) (e : penv) {struct l} : pflow :=
@@ -101,7 +132,31 @@ Fixpoint pexec (s : stmt) (e : penv) {struct s} : pflow :=
     end in
   match s with
   | SAssign _ [EId x] [rhs] =>
-    match peval e rhs with PBad => PStuck | v => PNext (pset x v e) end
+    match rhs with
+    | ECall (EId f) _ => if String.eqb f "newStrBuf" then PNext (pset x (PS []) e)    (* the argument is a capacity *)
+                         else match peval e rhs with PBad => PStuck | v => PNext (pset x v e) end
+    | _ => match peval e rhs with PBad => PStuck | v => PNext (pset x v e) end
+    end
+  (* a map of strings (RM): v, ok := m[k]   m[k] = x   m[k] += x *)
+  | SAssign _ [EId a; EId b] [EIndex (EId m) k] =>
+    match e m, peval e k with
+    | PM mm, PS kk =>
+      PNext (pset b (PB (match rm_get_raw mm kk with Some _ => true | None => false end))
+            (pset a (PS (match rm_get_raw mm kk with Some v => v | None => [] end)) e))
+    | _, _ => PStuck
+    end
+  | SAssign false [EIndex (EId m) k] [rhs] =>
+    match e m, peval e k, peval e rhs with
+    | PM mm, PS kk, PS x => PNext (pset m (PM (rm_put mm kk x)) e)
+    | _, _, _ => PStuck
+    end
+  | SOpAssign op (EIndex (EId m) k) rhs =>
+    if String.eqb op "+" then
+      match e m, peval e k, peval e rhs with
+      | PM mm, PS kk, PS x => PNext (pset m (PM (rm_put mm kk ((match rm_get_raw mm kk with Some v => v | None => [] end) ++ x))) e)
+      | _, _, _ => PStuck
+      end
+    else PStuck
   | SIf init c th el =>
     match run init e with
     | PNext e1 =>
@@ -112,8 +167,49 @@ Fixpoint pexec (s : stmt) (e : penv) {struct s} : pflow :=
       end
     | other => other
     end
+  | SContinue => PCont e
+  | SRange (Some i) (Some v) _ coll body =>
+    match peval e coll with
+    | PL l => range_loop l 0 (fun idx c e' => run body (pset v (PS c) (pset i (PZ idx) e'))) e
+    | _ => PStuck
+    end
   | SReturn [] => PRet e None
   | SReturn [x] => match peval e x with PBad => PStuck | v => PRet e (Some v) end
+  (* a pooled strings.Builder: the variable holds the text written so far *)
+  | SDefer (ECall (EId f) _) => if String.eqb f "putStrBuf" then PNext e else PStuck
+  | SExpr (ECall (ESel (EId b) m) [a]) =>
+    match e b with
+    | PS acc =>
+      if String.eqb m "WriteString" then match peval e a with PS x => PNext (pset b (PS (acc ++ x)) e) | _ => PStuck end
+      else if String.eqb m "WriteByte" then
+        match peval e a with PZ c => if (0 <=? c) && (c <? 256) then PNext (pset b (PS (acc ++ [Z.to_N c])) e) else PStuck | _ => PStuck end
+      else if String.eqb m "Grow" then PNext e
+      else PStuck
+    | _ => PStuck
+    end
+  | SSwitch [] (Some tag) cases =>
+    match peval e tag with
+    | PS t =>
+      (fix pick (cs : list (list expr * list stmt)) : pflow :=
+         match cs with
+         | [] => (fix dflt (ds : list (list expr * list stmt)) : pflow :=
+                    match ds with
+                    | [] => PNext e
+                    | ([], body) :: _ => run body e
+                    | _ :: r => dflt r
+                    end) cases
+         | (vals, body) :: r =>
+           (fix any (vs : list expr) : pflow :=
+              match vs with
+              | [] => pick r
+              | v :: vr => match peval e v with
+                           | PS c => if str_eqb t c then run body e else any vr
+                           | _ => PStuck
+                           end
+              end) vals
+         end) cases
+    | _ => PStuck
+    end
   | _ => PStuck
   end.
 
@@ -142,5 +238,32 @@ Definition run_bool (f : fn) (arg : str) : option bool :=
                 | PRet _ (Some (PB b)) => Some b
                 | _ => None
                 end
+  | _ => None
+  end.
+
+(* GenValidKV(key, values...) (valid/rule.go) *)
+Definition run_gen (f : fn) (key : str) (values : list str) : option str :=
+  match pexec_list (fn_body f) (pset "key" (PS key) (pset "values" (PL values) pempty)) with
+  | PRet _ (Some (PS s)) => Some s
+  | _ => None
+  end.
+
+(* GetJoinValidErrStr(objName, fieldName, inputVal, others...) (valid/common.go) *)
+Definition run_join (f : fn) (obj field input : str) (others : list str) : option str :=
+  match pexec_list (fn_body f)
+          (pset "objName" (PS obj) (pset "fieldName" (PS field) (pset "inputVal" (PS input) (pset "others" (PL others) pempty)))) with
+  | PRet _ (Some (PS s)) => Some s
+  | _ => None
+  end.
+
+(* (r RM) Set(filedNames, rules...) and (r RM) Get(fieldName) (valid/rule.go); the map is the model's association list *)
+Definition run_rm_set (f : fn) (r : rm) (fields : str) (rules : list str) : option rm :=
+  match pexec_list (fn_body f) (pset "r" (PM r) (pset "filedNames" (PS fields) (pset "rules" (PL rules) pempty))) with
+  | PRet _ (Some (PM m)) => Some m
+  | _ => None
+  end.
+Definition run_rm_get (f : fn) (r : rm) (field : str) : option str :=
+  match pexec_list (fn_body f) (pset "r" (PM r) (pset "fieldName" (PS field) pempty)) with
+  | PRet _ (Some (PS s)) => Some s
   | _ => None
   end.
